@@ -686,7 +686,7 @@ theorem hier_point_value_partial (h : HHistory) (T : ClassId) (n : Name) (c : Co
 and re-declares it as point 11; Direct = class 2 extends Top with implementation 1 for context 20;
 Nested = class 3 extends Mid with implementation 2 for context 20 (registered later) -/
 private def hHist : HHistory :=
-  [⟨[], [⟨0, 10, true, []⟩]⟩, ⟨[0], [⟨0, 11, true, []⟩]⟩, ⟨[0], [⟨0, 1, false, [20]⟩]⟩, ⟨[1, 0], [⟨0, 2, false, [20]⟩]⟩]
+  [⟨[], [⟨0, 10, true, [], true⟩]⟩, ⟨[0], [⟨0, 11, true, [], true⟩]⟩, ⟨[0], [⟨0, 1, false, [20], true⟩]⟩, ⟨[1, 0], [⟨0, 2, false, [20], true⟩]⟩]
 example : (hRegister hHist).deps 10 = [11, 1] ∧ (hRegister hHist).deps 11 = [2] ∧
     (hRegister hHist).handlers 0 0 20 = [1, 2] ∧ (hRegister hHist).handlers 1 0 20 = [] ∧
     (hRegister hHist).ignore 1 = [20] ∧ (hRegister hHist).ignore 2 = [] := by decide
@@ -727,10 +727,27 @@ theorem previous_latest_ignored (r : HReg) (b : ClassId) (ps : List ClassId) (n 
 
 private def sortDedupIgnore (l : List Comp) : List Comp := dedup l
 private def cHist : HHistory :=
-  [⟨[], [⟨0, 10, true, []⟩, ⟨1, 11, true, []⟩]⟩, ⟨[0], [⟨0, 5, false, [20]⟩, ⟨1, 1, false, [20]⟩]⟩,
-   ⟨[0], [⟨0, 6, false, [21]⟩, ⟨1, 2, false, [20, 21]⟩]⟩, ⟨[0], [⟨1, 3, false, [20]⟩]⟩, ⟨[0], [⟨0, 7, false, [20]⟩, ⟨1, 4, false, [20]⟩]⟩]
+  [⟨[], [⟨0, 10, true, [], true⟩, ⟨1, 11, true, [], true⟩]⟩, ⟨[0], [⟨0, 5, false, [20], true⟩, ⟨1, 1, false, [20], true⟩]⟩,
+   ⟨[0], [⟨0, 6, false, [21], true⟩, ⟨1, 2, false, [20, 21], true⟩]⟩, ⟨[0], [⟨1, 3, false, [20], true⟩]⟩, ⟨[0], [⟨0, 7, false, [20], true⟩, ⟨1, 4, false, [20], true⟩]⟩]
 example : (hRegister cHist).handlers 0 1 20 = [1, 2, 3, 4] ∧ (hRegister cHist).ignore 3 = [20] ∧
     (sortDedupIgnore ((hRegister cHist).ignore 2)) = [20] ∧ (hRegister cHist).ignore 4 = [] := by decide
+
+/-! ### specialised datasource types -/
+
+/-- registration looks at the `isDs` flag of an attribute and at nothing else about its type: an attribute that
+is neither a RegistryPoint nor (by type hierarchy) a datasource leaves the registration state untouched — and a
+datasource of a specialised type is wired by the very same `hAttach` as a plain one (definitionally) -/
+theorem only_datasources_registered (k : ClassId) (ps : List ClassId) (r : HReg) (e : HEntry)
+    (hp : e.isPoint = false) :
+    (e.isDs = false → hRegEntry k ps r e = r) ∧
+    (e.isDs = true → hRegEntry k ps r e = hAttach ps e.name e.comp e.ctxs r) := by
+  constructor <;> intro hd <;> simp [hRegEntry, hp, hd]
+
+private def sHist : HHistory :=
+  [⟨[], [⟨0, 10, true, [], true⟩]⟩, ⟨[0], [⟨0, 1, false, [20], true⟩]⟩, ⟨[0], [⟨0, 2, false, [20], false⟩]⟩,
+   ⟨[0], [⟨0, 3, false, [20], true⟩]⟩]
+example : (hRegister sHist).deps 10 = [1, 3] ∧ (hRegister sHist).handlers 0 0 20 = [1, 3] ∧
+    (hRegister sHist).ignore 1 = [20] ∧ (hRegister sHist).ignore 2 = [] := by decide
 
 /-! ### derived execution contexts
 
